@@ -254,6 +254,12 @@ def make_input(D, fmt, bs=1, dtype=None, shuffle_seed=0):
             C.data[s:e] = C.data[s:e][p]
         C.has_sorted_indices = False
         return C
+    if fmt == 'csr_stored_zeros':
+        # CSR that stores the zeros a BSR matrix with this blocksize stores inside its blocks
+        Z = sp.csr_array(sp.bsr_array(C, blocksize=(bs, bs)))
+        Z.indptr = Z.indptr.astype(np.int32)
+        Z.indices = Z.indices.astype(np.int32)
+        return Z
     if fmt == 'csr_int64':
         C.indptr = C.indptr.astype(np.int64)
         C.indices = C.indices.astype(np.int64)
@@ -744,6 +750,11 @@ def eval_build_case(ctx, case, fmts, pending_store):
             continue          # the same format with another storage order: purity only
         store_item(b, fmt, bs)
         fk = classify_format(case, fmt, bs, ref.exc is None, b.exc)
+        if fk == K_RS_BSR_ZEROS:
+            # exactly that mechanism?  then CSR input that stores the same zeros gives the BSR hierarchy
+            z = build(case, 'csr_stored_zeros', bs)
+            if z.ml is None or b.ml is None or compare_levels(level_values(z.ml), level_values(b.ml), 'content'):
+                fk = None
         if ref.exc is not None:
             if b.exc is None:
                 ctx.feat('format_accepts_what_csr_rejects')
@@ -1012,7 +1023,7 @@ def call_text(c):
 
 def reuse_stream(ctx, rng, count):
     for t in range(count):
-        if ctx.time_left() < 5:
+        if out_of_time(ctx, 46, 120):
             ctx.feat('reuse_budget_cut')
             break
         case = gen_case(rng, ctx.quick, reuse=True)
@@ -1365,6 +1376,15 @@ def eval_asa_case(ctx, case, other_fmt):
 # entry points
 # ------------------------------------------------------------------------------------------------
 
+def out_of_time(ctx, quick_elapsed, thorough_left):
+    """quick tier: stop a stream once the check has been running for `quick_elapsed` seconds (a loaded machine must not push
+    the tier far beyond a minute); thorough tier: keep `thorough_left` seconds of the budget for what follows"""
+    import time
+    if ctx.quick and not ctx.deep:
+        return time.time() - ctx.t0 > quick_elapsed
+    return ctx.time_left() < thorough_left
+
+
 def choose_formats(rng, case, all_formats):
     n = case['A'].shape[0]
     fm = [('csc', 1), ('coo', 1), ('lil', 1), ('dia', 1), ('dense', 1), ('bsr', 1), ('csr_unsorted', 1)]
@@ -1380,7 +1400,7 @@ def choose_formats(rng, case, all_formats):
 def build_stream(ctx, rng, count, q, all_formats=False):
     pending = []
     for t in range(count):
-        if ctx.time_left() < 5:
+        if out_of_time(ctx, 30, 400):
             ctx.feat('build_budget_cut')
             break
         case = gen_case(rng, ctx.quick)
@@ -1392,14 +1412,14 @@ def run(ctx):
     rng = ctx.np_rng
     q = LeanQueue()
     part_kind(ctx, q)
-    part_cache(ctx, rng, ctx.scale(300, 5000), q)
-    part_trace(ctx, rng, ctx.scale(60, 800), q)
+    part_cache(ctx, rng, ctx.scale(300, 8000), q)
+    part_trace(ctx, rng, ctx.scale(60, 1500), q)
     for _ in range(ctx.scale(2, 10)):
         int64_case(ctx, rng)
-    build_stream(ctx, rng, ctx.scale(200, 4000), q)
-    reuse_stream(ctx, rng, ctx.scale(450, 9000))
+    build_stream(ctx, rng, ctx.scale(200, 7000), q)
+    reuse_stream(ctx, rng, ctx.scale(450, 16000))
     if not ctx.quick:
-        for _ in range(60):
+        for _ in range(80):
             asa_case(ctx, rng)
     q.flush(ctx)
 
